@@ -8,7 +8,6 @@ import (
 	"fmt"
 	"io"
 	"net"
-	"strings"
 	"sync"
 	"sync/atomic"
 	"testing"
@@ -343,10 +342,10 @@ type sshResult struct {
 	err      error
 }
 
-func (e *labEnv) runSSHConn(sc sshConn, user string, script *sshScript) *sshResult {
+func (e *labEnv) runSSHConn(ci int, sc sshConn, user string, script *sshScript) *sshResult {
 	res := &sshResult{}
 	addr := e.addr(e.sshPort)
-	c, err := net.DialTimeout("tcp", addr, 5*time.Second)
+	c, err := dialTCPFrom(ci, addr)
 	if err != nil {
 		res.err = fmt.Errorf("infra: dial proxy %s: %v", addr, err)
 		return res
@@ -514,7 +513,7 @@ func checkSSHOnce(t testing.TB, c sshCase) error {
 		wg.Add(1)
 		go func(ci int) {
 			defer wg.Done()
-			results[ci] = e.runSSHConn(c.Conns[ci], users[ci], scripts[ci])
+			results[ci] = e.runSSHConn(ci, c.Conns[ci], users[ci], scripts[ci])
 		}(ci)
 	}
 	wg.Wait()
@@ -533,15 +532,8 @@ func checkSSHOnce(t testing.TB, c sshCase) error {
 	if len(stray) > 0 {
 		return fmt.Errorf("backend: %s", stray[0])
 	}
-	for _, ra := range remotes {
-		for _, r := range results {
-			if r.local != nil && r.local.String() == ra {
-				return fmt.Errorf("backend saw a connection from the client's own address %s", ra)
-			}
-		}
-		if !strings.HasPrefix(ra, "127.0.0.1:") {
-			return fmt.Errorf("backend saw a connection from %s, not from the proxy host", ra)
-		}
+	if err := fromProxyHost(remotes); err != nil {
+		return err
 	}
 	var pending error
 	for ci, sc := range c.Conns {
@@ -825,7 +817,7 @@ func TestSSH(t *testing.T) {
 		return
 	}
 	getEnv(t)
-	r.Rapid(t, "TestSSH", r.Pick(150, 1200), func(rt *rapid.T) {
+	r.Rapid(t, "TestSSH", r.Pick(350, 2500), func(rt *rapid.T) {
 		c := genSSHCase(rt)
 		fp := ""
 		if c.nontrivial() {
